@@ -173,7 +173,7 @@ func genSweep(ss *specStates, sw *shardWriter, tier string, rng *rand.Rand, st *
 	if thorough {
 		conts = tokenCompletions(ss)
 	}
-	bases := sweepBases(ss, true, thorough, rng)
+	bases := sweepBases(ss, true, false, rng)
 	parallelBases(bases, st, rng, func(base sweepBase, rng *rand.Rand, st *genStats, w *sweepWorker) {
 		genSweepBase(ss, sw, base, thorough, mem, conts, rng, st, w)
 	})
@@ -300,10 +300,13 @@ func genSweepBase(ss *specStates, sw *shardWriter, base sweepBase, thorough bool
 				if srcComp != 0 {
 					row(b, srcComp)
 				}
-				if thorough || (b == ms[0] && !base.edge) || (b == ms[0] && ss.Classes[b] != 33 && ss.Classes[b] != 0 && ss.Classes[b] != 128) {
+				if (b == ms[0] && !base.edge) || (b == ms[0] && ss.Classes[b] != 33 && ss.Classes[b] != 0 && ss.Classes[b] != 128) {
 					cs := conts
-					if base.edge && !thorough {
+					if base.edge {
 						cs = conts[:1]
+						if thorough {
+							cs = conts[:3]
+						}
 					}
 					for _, t := range cs {
 						row(b, add(append(append([]byte{}, t...), comp...)))
